@@ -114,7 +114,29 @@ typedef struct {
 static fa_site_t *fa_sites = NULL;
 static long fa_nsites = 0, fa_sites_cap = 0;
 
+/* distinct call sites attempted while armed (coverage of the allocation sites of the library) */
+#define FA_MAXCS 1024
+static void *fa_cs[FA_MAXCS];
+static int fa_ncs = 0;
+static void fa_note_caller(void *caller) {
+  for (int i = 0; i < fa_ncs; i++)
+    if (fa_cs[i] == caller) return;
+  if (fa_ncs < FA_MAXCS) fa_cs[fa_ncs++] = caller;
+}
+
 static void fa_note_site(int type, size_t size, void *caller, int is_realloc) {
+  fa_note_caller(caller);
+  {
+    /* the three frames behind the call site as well: allocation helpers (coap_new_string,
+     * coap_pdu_init, coap_new_node, ...) have call sites of their own that count */
+    void *bt[FA_BT];
+    int n = backtrace(bt, FA_BT);
+    for (int i = 0; i < n; i++)
+      if (bt[i] == caller) {
+        for (int j = i + 1; j < n && j <= i + 3; j++) fa_note_caller(bt[j]);
+        break;
+      }
+  }
   if (fa_nsites == fa_sites_cap) {
     fa_sites_cap = fa_sites_cap ? fa_sites_cap * 2 : 1024;
     fa_sites = (fa_site_t *)realloc(fa_sites, (size_t)fa_sites_cap * sizeof(fa_site_t));
@@ -383,6 +405,7 @@ static void fa_reset(void) {
   fa_trace_len = 0;
   fa_events = 0;
   fa_nsites = 0;
+  fa_ncs = 0;
   fa_attempts = 0;
   fa_injected = 0;
 }
